@@ -38,6 +38,8 @@ DIRECTIVES = [
     (["#if 1"], None),
     (["#line 1"], None),
     (["# 1 \"main.F90\" 2"], None),
+    (["#define TWICE(a) a; a"], None),                    # a ';' in a directive is not a statement separator
+    (["#if defined(A); B"], None),
     (["#define LONG(a) \\", "    a + 1"], "#define LONG(a)     a + 1"),
     (["  #  define SPACED 3"], "#define SPACED 3"),
     (["#define TRAIL(a) a + 2 \\", ""], "#define TRAIL(a) a + 2"),
@@ -48,8 +50,21 @@ DIRECTIVES = [
 CPP_PREFIX = "Cpp_"
 
 
-def insertions(rng, nstmts, mode):
+def insertions(rng, nstmts, mode, st=None):
     """list of (position, directive index); position p = before statement p (nstmts = at the end)"""
+    if mode == "sweep" and st is not None:
+        # one construct or unit (its kind drawn uniformly among the kinds present): a directive in front of EVERY
+        # statement of its body and in front of its END
+        opens = {}
+        for i, x in enumerate(st):
+            if x.role == "open":
+                opens.setdefault(x.kind, []).append(i)
+        if opens:
+            i = rng.choice(opens[rng.choice(sorted(opens))])
+            j = next((k for k in range(i + 1, len(st)) if st[k].role == "close" and st[k].cid == st[i].cid), None)
+            if j is not None and j - i <= 40:
+                return [(p, rng.randrange(len(DIRECTIVES))) for p in range(i + 1, j + 1)]
+        mode = "multi"
     if mode == "single":
         return [(rng.randrange(0, nstmts + 1), rng.randrange(len(DIRECTIVES)))]
     k = rng.randrange(2, 7)
@@ -106,7 +121,7 @@ def check_one(arg):
     ref = fp.parse(canon, std=std, ignore_comments=True)
     if ref.kind != "tree":
         return [("generator", "canonical program rejected", dict(source=canon))]
-    ins = insertions(rng, len(st), "single" if v % 2 == 0 else "multi")
+    ins = insertions(rng, len(st), ("single", "multi", "sweep", "multi", "single", "sweep")[v % 6], st)
     keep = v % 3 == 2
     src, expect, csrc = build(st, ins, keep, rng, want_ref=True)
     rep = dict(std=std, source=src, canonical=canon, keep_comments=keep)
